@@ -1,15 +1,20 @@
 """C06 -- closed-form derivative helpers are true derivatives.
 Engine S + Coquelicot: every helper is a pair (f, D) of functions of /repo (trace.cxx); both are instantiated with the
 symbolic scalar, the straight-line definitions are regenerated on every run and Coq re-proves, entry by entry, that D is the
-Jacobian of f at every point (is_derive, auto_derive + field).  Tie to double: Sym-vs-double agreement of f and D.
+Jacobian of f at every point (is_derive, auto_derive + field).  Helpers that take the derivative X of an inner function (chain-rule
+overloads, stress-derivative conversions, push-forward) are stated with the affine inner function v(p) = v0 + X.p.  Tie to double: Sym-vs-double agreement of f and D.
 Failing-input search: the real double code against fourth-order central finite differences of the real double f."""
 import os, re
 from concurrent.futures import ThreadPoolExecutor
 from vlib import guarded_main
 
 SUPPORT = ["src/Exception/ContractViolation.cxx"]
-GROUPS = ["", "b", "c", "d", "e", "f"]
-FINDING_HELPER = "tensor_det2"   # the helper whose positive theorem lives alone in group f
+GROUPS = ["", "b", "c", "d", "e", "f", "g", "h", "i", "j"]
+# N = 3 instances of the helpers with a symbolic fourth-order parameter (54..81 entries over 40..96 symbols each): thorough tier only
+THOROUGH_GROUPS = ["t1", "t2", "t3", "t4", "t5", "t6", "t7"]
+# helpers whose positive theorem is false of the pinned tree: group -> (helper, files used while the finding is present)
+FINDINGS = {"f": ("tensor_det2", ["C06RefutedF.v", "Properties_C06f_refuted.v"]),
+            "g": ("st2tot2_tpld_chain", ["C06RefutedG.v", "Properties_C06g_refuted.v"])}
 COMP_S = ["00", "11", "22", "01", "02", "12"]
 COMP_T = ["00", "11", "22", "01", "10", "02", "20", "12", "21"]
 
@@ -99,25 +104,27 @@ def main(c):
                      {"helper": name, "N": N, "p": p, "q": q, "row": i, "column": j, "returned": dv, "finite_difference": fd, "h": h,
                       "how": "props/C06/trace.cxx `run`: D(p) and f(p +- h e_j), f(p +- 2h e_j) of the real double code; fourth-order central difference"},
                      True)
-    c.coverage["rule"] = ("%d helper instances (22 helpers x N=1,2,3) x %d seeded points in [-2,2]^n (invertible parameter F = I + perturbation where "
-                          "the helper divides by det F); every entry of the Jacobian against a fourth-order central difference (h=1e-4, tolerance 1e-7)") % (len(shapes), ncase)
+    c.coverage["rule"] = ("%d helper instances (%d helpers x N=1,2,3) x %d seeded points in [-2,2]^n (invertible F = I + perturbation where the "
+                          "helper or the function divides by det F); every entry of the Jacobian against a fourth-order central difference (h=1e-4, "
+                          "tolerance 1e-7)") % (len(shapes), len(shapes) // 3, ncase)
     c.coverage["executions_against_numeric_spec"] = nrun
 
     # ---- theorems, re-checked against the regenerated definitions
-    finding_seen = any(n == FINDING_HELPER for (n, _N) in failed)
     base = c.coq([gen, "C06Spec.v", "C06Tactics.v", "C06Statements.v"], timeout=600)
     results = [("base", base)]
     if base.ok:
         jobs = []
-        for g in GROUPS:
-            if g == "f" and finding_seen:
-                # the positive theorem is false of this tree: prove what is true (1D) and the refutation (2D, 3D)
-                jobs.append((g, ["C06RefutedF.v", "Properties_C06f_refuted.v"]))
-                c.notes.append("computeDeterminantSecondDerivative(tensor): positive theorem replaced by C06_tensor_det2_refuted (finding present)")
+        for g in GROUPS + (THOROUGH_GROUPS if not c.quick() else []):
+            if g in FINDINGS and any(n == FINDINGS[g][0] for (n, _N) in failed):
+                # the positive theorem is false of this tree: prove what is true (lower dimensions) and the refutation
+                jobs.append((g, FINDINGS[g][1]))
+                c.notes.append("%s: positive theorem replaced by its refutation (finding present)" % FINDINGS[g][0])
             else:
                 jobs.append((g, ["C06Proofs%s.v" % g.upper(), "Properties_C06%s.v" % g]))
+        # heaviest first; 4 coqc at a time
+        jobs.sort(key=lambda j: 0 if j[0].startswith("t") else 1)
         with ThreadPoolExecutor(max_workers=4) as ex:
-            fs = [(g, files, ex.submit(c.coq, files, 1500)) for (g, files) in jobs]
+            fs = [(g, files, ex.submit(c.coq, files, 3400 if g.startswith("t") else 1500)) for (g, files) in jobs]
             for (g, files, f) in fs:
                 res = f.result()
                 results.append((g, res))
@@ -125,11 +132,14 @@ def main(c):
                     txt = open(os.path.join(c.dir, "coq", files[1])).read()
                     c.coverage["obligations"] += len(re.findall(r"^Theorem ", txt, flags=re.M))
                 for (fn, line, thm, msg) in res.failed:
-                    if fn.startswith("C06Proofs") and line:
+                    if (fn.startswith("C06Proofs") or fn.startswith("C06Refuted")) and line:
                         lem = [m.group(1) for i, l in enumerate(open(os.path.join(c.dir, "coq", fn)).read().splitlines())
                                for m in [re.match(r"Lemma (\w+)", l)] if m and i + 1 <= line]
                         if lem:
                             c.notes.append("broken lemma: %s (%s line %d)" % (lem[-1], fn, line))
+    if c.quick():
+        c.notes.append("quick tier: the 3D instances of dsquare(s,C), t2tot2::tpld/tprd(.,C), computePushForwardDerivative(dS,S,F) and of the five stress-derivative "
+                       "conversions are proved in the thorough tier only (Properties_C06t1..t7.v); their 1D and 2D instances and every other helper are proved here")
     for (g, res) in results:
         if res.ok:
             continue
